@@ -4,6 +4,7 @@ package main
 
 import (
 	"fmt"
+	"os"
 	"go/token"
 	"go/types"
 	"strings"
@@ -66,6 +67,9 @@ func (e *Exec) evalSpecArgs(st *State, fn *ssa.Function, args []Value, assertMod
 			delta = And(o.st.pc[n:]...)
 		}
 		alts = append(alts, And(delta, r))
+		if os.Getenv("GOVC_DEBUG") == "3" && e.discovery == 0 && fn.Name() == os.Getenv("GOVC_SPEC") {
+			fmt.Fprintf(os.Stderr, "SPECPATH %s: delta=%s r=%s dead=%v\n", fn.Name(), showTerm(delta, 4), showTerm(r, 4), o.st.dead)
+		}
 		for _, f := range o.st.facts[nf:] {
 			if !f.hasBound {
 				st.AssumeFact(f)
@@ -143,10 +147,27 @@ type assignEntry struct {
 	prefix string
 	ref    *Term
 	text   string
+	whole  bool // prefix names a whole type: match the key itself or any of its fields
+}
+
+func (a assignEntry) covers(key string) bool {
+	if a.whole {
+		return key == a.prefix || strings.HasPrefix(key, a.prefix+".")
+	}
+	return strings.HasPrefix(key, a.prefix)
 }
 
 // resolveAssign resolves an assigns path such as "v.asc", "v.*", "data[*]", "v.input.transactions[*]".
 func (e *Exec) resolveAssign(st *State, fn *ssa.Function, params map[string]Value, path string) assignEntry {
+	if strings.HasPrefix(path, "any(") {
+		// every object of the named type of this package: any(chunkStream)
+		tn := strings.TrimSuffix(strings.TrimPrefix(path, "any("), ")")
+		pk := ""
+		if p := fn.Package(); p != nil {
+			pk = p.Pkg.Name() + "."
+		}
+		return assignEntry{prefix: pk + tn, ref: nil, text: path, whole: true}
+	}
 	if path == "ghost.ioerr" {
 		return assignEntry{prefix: "ghost:ioerr", ref: IntConst(0), text: path}
 	}
@@ -172,10 +193,11 @@ func (e *Exec) resolveAssign(st *State, fn *ssa.Function, params map[string]Valu
 	if !ok {
 		panic(unsupported("assigns: unknown root " + parts[0] + " in " + fnName(fn)))
 	}
-	for _, f := range parts[1:] {
+	for fi, f := range parts[1:] {
 		if f == "*" {
 			break
 		}
+		last := fi == len(parts)-2
 		p, ok := cur.(*PtrV)
 		if !ok || p.Kind != PObj {
 			panic(unsupported("assigns: cannot select ." + f + " in " + path))
@@ -198,7 +220,7 @@ func (e *Exec) resolveAssign(st *State, fn *ssa.Function, params map[string]Valu
 		np := *p
 		np.Path = append(append([]int(nil), p.Path...), idx)
 		ft := st2.Field(idx).Type()
-		if _, isPtr := ft.Underlying().(*types.Pointer); isPtr {
+		if _, isPtr := ft.Underlying().(*types.Pointer); isPtr && !last {
 			v := st.LoadLoc(e.locOf(&np))
 			cur = v
 		} else {
@@ -287,7 +309,10 @@ func (e *Exec) frameCheckCond(st *State, fr *Frame, cond *Term, l Loc, pos token
 	}
 	alts := []*Term{IntLe(e.topEntry, ref)}
 	for _, a := range e.topAssigns {
-		if strings.HasPrefix(l.Key, a.prefix) {
+		if a.covers(l.Key) {
+			if a.ref == nil {
+				return // any object of that type may be assigned
+			}
 			alts = append(alts, Eq(ref, a.ref))
 		}
 	}
@@ -306,7 +331,12 @@ func (e *Exec) paramMap(fn *ssa.Function, args []Value) map[string]Value {
 
 func (e *Exec) havocAssign(st *State, a assignEntry) {
 	for k, s := range heapSorts {
-		if !strings.HasPrefix(k, a.prefix) {
+		if !a.covers(k) {
+			continue
+		}
+		if a.ref == nil {
+			st.heaps[k] = Fresh("hv:"+k, s)
+			st.written[k] = true
 			continue
 		}
 		h := st.heap(k, s)
@@ -322,17 +352,26 @@ func (e *Exec) callContract(st *State, fr *Frame, sp *FnSpec, fn *ssa.Function, 
 	} else {
 		e.note("modular call (callee verified separately against its contract): " + sp.Target)
 	}
+	if os.Getenv("GOVC_DEBUG") != "" && e.discovery == 0 {
+		fmt.Fprintf(os.Stderr, "DEBUG: contract call %s in %s dead=%v pc=%d\n", sp.Target, e.curFn, st.dead, len(st.pc))
+	}
 	params := e.paramMap(fn, args)
 	pre := st.Clone()
+	prePC := st.PC()
 	cf := &Frame{fn: fn, params: params, entry: pre, depth: fr.depth + 1}
 	for _, c := range sp.Requires {
 		t := e.evalSpec(st, cf, c, func(n string, t types.Type) (Value, bool) { return e.topEnvLookup(st, cf, n, t) }, true)
+		if os.Getenv("GOVC_DEBUG") != "" && e.discovery == 0 {
+			fmt.Fprintf(os.Stderr, "DEBUG: requires %s = %s\n", c.Name, showTerm(t, 4))
+		}
 		e.oblige(st, fr, "callsite.requires."+fn.Name()+"."+c.Name, pos, t)
 	}
 	for _, a := range sp.Assigns {
 		ae := e.resolveAssign(pre, fn, params, a)
 		// the callee's frame must be inside the caller's
-		e.frameCheck(st, fr, Loc{Key: ae.prefix, Idx: []*Term{ae.ref}}, pos)
+		if ae.ref != nil {
+			e.frameCheck(st, fr, Loc{Key: ae.prefix, Idx: []*Term{ae.ref}}, pos)
+		}
 		e.havocAssign(st, ae)
 	}
 	oldTop := st.Top()
@@ -362,9 +401,27 @@ func (e *Exec) callContract(st *State, fr *Frame, sp *FnSpec, fn *ssa.Function, 
 	defer func() { e.oldState = savedOld }()
 	e.freshBase = oldTop
 	for _, c := range sp.Ensures {
-		st.Assume(e.evalSpec(st, cf, c, env, false))
+		wasDead := st.dead
+		t := e.evalSpec(st, cf, c, env, false)
+		if os.Getenv("GOVC_DEBUG") != "" && e.discovery == 0 && !wasDead && st.dead {
+			fmt.Fprintf(os.Stderr, "DEBUG: state died while evaluating ensures %s of %s\n", c.Name, sp.Target)
+		}
+		if os.Getenv("GOVC_DEBUG") == "4" && e.discovery == 0 {
+			fmt.Fprintf(os.Stderr, "ASSUME %s.%s = %s\n", sp.Target, c.Name, showTerm(t, 3))
+		}
+		if t == False && os.Getenv("GOVC_DEBUG") != "" {
+			fmt.Fprintf(os.Stderr, "DEBUG: assuming ensures %s of %s is literally false in %s\n", c.Name, sp.Target, e.curFn)
+		}
+		st.Assume(t)
 	}
 	e.freshBase = savedFB
+	if os.Getenv("GOVC_DEBUG") != "" && e.discovery == 0 {
+		fmt.Fprintf(os.Stderr, "DEBUG:   after %s dead=%v\n", sp.Target, st.dead)
+	}
+	// vacuity guard: the callee's postcondition must be satisfiable together with what is known at the call site
+	if e.discovery == 0 && e.specMode == 0 && !st.dead {
+		e.obls = append(e.obls, &Obligation{Name: e.curFn + "#cover.after." + fn.Name() + relPos(fr.fn, pos), Kind: "cover-call", Fn: e.curFn, Labels: e.curLabels, PC: st.PC(), Goal: False, Inputs: e.curInputs, Entry: e.curEntry, PrePC: prePC})
+	}
 	return one(st, rs...)
 }
 
@@ -524,7 +581,7 @@ func (e *Exec) VerifyFunction(sp *FnSpec, prop string) (err error) {
 				seen[id] = true
 				var alts []*Term
 				for _, a := range e.topAssigns {
-					if strings.HasPrefix(g.key, a.prefix) {
+					if strings.HasPrefix(g.key, a.prefix) && a.ref != nil {
 						alts = append(alts, Eq(g.ref, a.ref))
 					}
 				}
